@@ -266,6 +266,12 @@ func (g *c12Gen) ctxCall(d int) jast.Node {
 		arg = g.ctxCall(d + 1)
 	}
 	g.tags["ctx:"+fn] = true
+	if r.Intn(4) == 0 {
+		// the same call written with the application operator: the function
+		// gets one argument and takes the other from the context
+		g.tags["ctx:applied"] = true
+		return underPath(p, &jast.Block{Exprs: []jast.Node{&jast.Apply{L: arg, R: &jast.Var{Name: fn}}}})
+	}
 	return underPath(p, &jast.Call{Fn: &jast.Var{Name: fn}, Args: []jast.Node{arg}})
 }
 
